@@ -133,11 +133,12 @@ SendChunk(c) ==
 \* ---------------------------------------------------------------- broker acks
 ChunkIdx(x) == { j \in 1..Len(x.bRecv) : x.bRecv[j][1] = "chunk" }
 RecvdSeqs(x) == { x.bRecv[i][3] : i \in ChunkIdx(x) }
+RecvdOn(x, c) == { x.bRecv[i][3] : i \in { j \in ChunkIdx(x) : x.bRecv[j][2] = c } }
 FullIdsSeen(x) == UNION { x.chunks[x.bRecv[i][3]].ids \ x.bRecv[i][4] : i \in ChunkIdx(x) }
 SeqOfSet(S, desc) == IF desc THEN SetToSortSeq(S, LAMBDA a, b : a > b) ELSE SetToSortSeq(S, LAMBDA a, b : a < b)
 
 BAck(S, desc, grant) ==
-    /\ s.alive /\ s.wireOf = s.conn /\ S # {} /\ S \subseteq RecvdSeqs(s) /\ s.nacks < MaxAcks /\ ~s.closed
+    /\ s.alive /\ s.wireOf = s.conn /\ S # {} /\ S \subseteq RecvdOn(s, s.conn) /\ s.nacks < MaxAcks /\ ~s.closed
     /\ Cardinality(S \cap s.bAcked) <= MaxDupAcks - s.dups
     /\ grant \subseteq (FullIdsSeen(s) \ s.bGrant)
     /\ (grant # {} => AliasGrants)
@@ -282,7 +283,7 @@ Next ==
     \/ CutNeeded \/ Tick
     \/ \E f \in Flushers : FlushCall(f) \/ FlushServe(f)
     \/ \E c \in s.toSend : SendChunk(c)
-    \/ \E S \in SUBSET RecvdSeqs(s), desc \in BOOLEAN, grant \in SUBSET (FullIdsSeen(s) \ s.bGrant) :
+    \/ \E S \in SUBSET RecvdOn(s, s.conn), desc \in BOOLEAN, grant \in SUBSET (FullIdsSeen(s) \ s.bGrant) :
           (Cardinality(S) <= 1 => ~desc) /\ BAck(S, desc, grant)
     \/ RouteAck \/ ProcAlias \/ ProcResult
     \/ \E c \in s.gotRes : WaiterDone(c)
@@ -327,6 +328,13 @@ AllReceivedAtClose == (s.cst = "done" /\ s.faults = 0) => RecvdSeqs(s) = 1..s.se
 \*      here: points reported sent + buffered never exceed the points accepted
 SnapshotConservation == s.total + s.bufCnt <= s.nw
 
+\* C20: with a size policy the buffered payload never stays above the threshold once the flush loop is back in its select
+SizePolicyBound == (Policy = "size" /\ s.fl = "idle") => s.bufSize <= Threshold
+\* C20: with the 'none' policy nothing is cut before an explicit Flush or Close was called
+NoneCutsOnlyOnDemand == (Policy = "none" /\ s.seq > 0) => (s.cst # "idle" \/ \E f \in Flushers : s.fst[f] # "idle")
+\* C20: with the immediate policy the buffer is empty whenever the flush loop is back in its select
+ImmediateCutsEveryWrite == (Policy = "immediate" /\ s.fl = "idle" /\ Running(s)) => BufEmpty(s)
+
 \* C02: a stored chunk leaves the store only after its result was consumed (reliable)
 StoredUntilAcked == Reliable => \A k \in 1..s.seq : k \notin s.stored => (k \in s.bAcked)
 \* C02: quiescent and healthy => every cut chunk has reached the broker
@@ -334,7 +342,7 @@ Quiescent(x) == /\ x.alive /\ x.cstatus = "connected" /\ Running(x) /\ x.sstatus
                 /\ x.resendQ = {} /\ x.resendCur = 0 /\ x.fl = "idle"
 NothingLostWhenQuiescent == (Reliable /\ Quiescent(s) /\ ~s.closedErr) => (1..s.seq) \subseteq RecvdSeqs(s)
 \* C02: reliable resume retransmits exactly what was not acknowledged
-ResendOnlyStored == s.resendQ \subseteq s.stored
+ResendOnlyStored == s.resendQ \subseteq 1..s.seq   \* (a snapshot entry may be acknowledged meanwhile by a sender of the old generation: harmless duplicate)
 
 \* script generation: print the environment projection at terminal states of interest
 Terminal == s.cst = "done" \/ s.closedErr
